@@ -4,7 +4,7 @@ from props import drawgen, c02
 
 RULE = ("fill_contiguous with rectangles inside / overlapping each of the 8 edge-corner combinations / enclosing / disjoint / zero width or "
         "height, stream lengths 0, 1, |A|-1, |A|, |A|+3, ending inside a skipped stretch; colours encode their own index (k*5+1 or k mod "
-        "65536) so any shift is visible; small panels with non-zero offsets and built-in ones; additionally the 16-bit-pointer variants of "
+        "65536) so any shift is visible; small panels with non-zero offsets and built-in ones; the same logical rectangle filled before and after a set_orientation on off-centre windows; additionally the 16-bit-pointer variants of "
         "take_u32 / nth_u32, cut out of the current src/graphics.rs by the harness build script, run on random (list, n) against the "
         "model; non-trivial = rectangle is clipped on at least one side and the stream reaches a visible point")
 TRUSTED = ["Oracle/Controller.v, Oracle/DrawSpec.v", "harness/build.rs extraction of the #[cfg(target_pointer_width = \"16\")] items"]
@@ -55,6 +55,28 @@ def gen(rng, tier, info, ifaces=(0, 1, 2, 7)):
         clipped = r0[0] < 0 or r0[1] < 0 or r0[0] + r0[2] > lw or r0[1] + r0[3] > lh
         pc["tags"] = ["clipped" if clipped else "inside", pc["md"], "batch" if pc["batch"] else "nobatch"] + [op[0] for _, op in ops]
         pc["nontrivial"] = clipped
+        c = vlib.pcase(pc)
+        c.coq = "C4P (%s)" % c.coq
+        cases.append(c)
+    # the same logical rectangle filled twice with an orientation change in between, on windows that are not centred in
+    # the framebuffer: the second fill must land where the NEW orientation puts it (whatever the driver remembers of
+    # the first window)
+    for k in range(60 if tier == "quick" else 600):
+        pc, m, lw, lh, cmax = drawgen.config(rng, info, ifaces=ifaces, models=[103, 104, 105, 112, 204, 212, 12, 11])
+        o = pc["opts"]
+        if m["fw"] > 2 and m["fh"] > 2:
+            o["w"], o["h"] = max(1, m["fw"] // 2), max(1, m["fh"] // 2)
+            o["ox"], o["oy"] = rng.choice([0, 1, m["fw"] - o["w"]]), rng.choice([0, 1, m["fh"] - o["h"]])
+        side = min(o["w"], o["h"])          # a rectangle that is inside under every orientation
+        w, h = rng.range(1, min(side, 6)), rng.range(1, min(side, 6))
+        r = (rng.range(0, side - w), rng.range(0, side - h), w, h)
+        if rng.chance(1, 3):
+            r = (-1, -1, w + 1, h + 1)
+        nr, nm = rng.below(4), rng.below(2)
+        cols = lambda a: [(i * 5 + a) % (cmax + 1) for i in range(r[2] * r[3])]
+        pc["ops"] = [(-1, ("fc", r, cols(1))), (-1, ("so", nr, nm)), (-1, ("fc", r, cols(2)))]
+        pc["tags"] = ["fill-reorient-fill", pc["md"]]
+        pc["nontrivial"] = (nr, bool(nm)) != (o["rot"], bool(o["mir"]))
         c = vlib.pcase(pc)
         c.coq = "C4P (%s)" % c.coq
         cases.append(c)
